@@ -739,7 +739,7 @@ function oddProject(rng) {
       return [["entry.ts", `type A<T> = ${body};\nparse.buildParsers<{ E0: A<${rng.pick(["string", "number", "{ k: 1 }"])}> }>();\n`]];
     }
     case 3: {
-      if (rng.chance(1, 3)) {
+      if (rng.chance(1, 2)) {
         // a circle closed only by DEFAULT imports and `export default <identifier>` (every address on it is a local one), down
         // to a file that imports its own default export
         const n = 1 + rng.below(4);
